@@ -6,6 +6,11 @@ props = [json.loads(l) for l in open(os.path.join(V, "properties.jsonl"))]
 
 TECH = "Rocq proof over an executable Gallina model + model/implementation correspondence"
 CLAIMS = {
+ "C17": ("proof", "Rocq theorems: the CBOR subset serde_cbor uses decodes back to the encoded value for every value (fuel = bytes + 1 always suffices); u32-digit vectors, big integers, rationals, i32 states, units, unit expressions and constants round-trip through the serde encodings of the model; derived-unit identifiers (translated from generated/ids.rs) are pairwise distinct and decode to the same unit; every shipped constant's value and unit round-trip through the bytes (by kernel computation over the translated data).",
+         "Trusted: Coq kernel + vm_compute; translator (its CBOR reading of db/*.bin.gz is cross-checked against serde's); hand-written codec model validated byte for byte against serde_cbor::to_vec / from_slice and serde_json on all shipped values, random 1000-bit rationals and random compounds. JSON decoding is checked on the implementation only."),
+ "C18": ("proof", "Rocq theorems over the evaluator model with an arbitrary fact database: same value with and without descriptions from any starting list; nothing recorded when off; with the switch evaluation only appends, in evaluation order, phrases for which the database returned a constant; the roots of a query list evaluated against one database have the values they have in isolation. By simulation between the two runs through every node kind and both loops.",
+         "Trusted: Coq kernel + vm_compute; hand-written evaluator model; correspondence including description order; re-ordered and fresh-process runs for the assumption that Db::lookup has no hidden state."),
+
  "C02": ("proof", "Rocq theorems over the model of Powers / Compound::base_units / factor and the unit tables translated from /repo: base_units computes the dimension vector (no zero entries); for ALL compounds of proportional units, + - and `to` succeed iff both sides have the same base dimensions and are the IllegalOperation / false answer otherwise; a plain number adopts the quantity's unit on either side.",
          "Trusted: Coq kernel + vm_compute; translator; hand-written model; correspondence on generated pairs of unit spellings; SI normalisation in Python as oracle (unit-word reading is C05)."),
  "C03": ("proof", "Rocq theorem factor_si: a successful conversion preserves value * SI scale, for all compounds over the translated tables (all conversion factors positive, by computation); corollaries: exact round trip, via = direct, linearity, prefix = its power of ten (translated prefix table equals the SI one), scale of powers and products.",
